@@ -3,6 +3,7 @@
 package mon
 
 import (
+	"crypto/sha256"
 	"fmt"
 	"io/ioutil"
 	"os"
@@ -69,10 +70,20 @@ func (s Snap) Shape() string {
 		if e.Dir {
 			fmt.Fprintf(&sb, "%q/\n", k)
 		} else {
-			fmt.Fprintf(&sb, "%q=%q\n", k, e.Data)
+			fmt.Fprintf(&sb, "%q=%s\n", k, DataKey(e.Data))
 		}
 	}
 	return sb.String()
+}
+
+// DataKey renders file content for shapes: literally when short, as a digest
+// when long.
+func DataKey(d string) string {
+	if len(d) <= 64 {
+		return fmt.Sprintf("%q", d)
+	}
+	h := sha256.Sum256([]byte(d))
+	return fmt.Sprintf("sha256:%x:%d", h[:12], len(d))
 }
 
 // Diff lists differences in names, kinds and contents; with strict also
